@@ -26,7 +26,8 @@ The function, step for step (line numbers of neuroml/utils.py in the repaired tr
       the cell, attribute cleared; a missing key raises KeyError *at that point* (cells before it are
       already modified, the morphology of the same cell too)
   a slot that already has an element is skipped (attribute kept)
-  only `newdoc.cells` is visited: `newdoc.cell2_ca_poolses` (class Cell2CaPools, a subclass of Cell) is not.
+  both loops visit `all_cells = newdoc.cells + newdoc.cell2_ca_poolses` (repaired tree; `fixExternalCells` is the
+  function before that repair, which visited `newdoc.cells` only).
 -/
 namespace NmlVerif.FixExternal
 
@@ -148,7 +149,7 @@ structure Doc where
   morphs : List Elem          -- `doc.morphology`
   bios : List Elem            -- `doc.biophysical_properties`
   cells : List Cell           -- `doc.cells`
-  cells2 : List Cell          -- `doc.cell2_ca_poolses` (never visited by the function)
+  cells2 : List Cell          -- `doc.cell2_ca_poolses` (class Cell2CaPools, a subclass of Cell)
   other : List Obj            -- everything else the document holds
 deriving Repr, Inhabited
 
@@ -314,8 +315,9 @@ def fixInPlace (newdoc : Doc) (files : Files) (n : Nat) : Result :=
     let newdoc' := { newdoc with cells := r.val }
     ⟨newdoc', retOf r.err newdoc', r.next, r.writes⟩
 
-/-- `fix_external_morphs_biophys_in_cell(doc, overwrite)` started with counter `n` -/
-def fixExternal (doc : Doc) (overwrite : Bool) (files : Files) (n : Nat) : Result :=
+/-- the function as it was before the repair `fix: resolve external morphology/biophysics references of Cell2CaPools
+    cells too`: only `doc.cells` is visited.  It is also the core of the repaired function (`fixExternal` below). -/
+def fixExternalCells (doc : Doc) (overwrite : Bool) (files : Files) (n : Nat) : Result :=
   if overwrite then fixInPlace doc files n
   else
     let c := deepcopyDoc doc n
@@ -323,5 +325,22 @@ def fixExternal (doc : Doc) (overwrite : Bool) (files : Files) (n : Nat) : Resul
     -- every write of `r` went to an object of the copy (theorem `c17_no_overwrite_frame`), so the
     -- document passed in is as it was
     { r with input := doc }
+
+/-- `all_cells = newdoc.cells + newdoc.cell2_ca_poolses`: the document seen as having ONE list of cells to visit -/
+def Doc.merge (d : Doc) : Doc := { d with cells := d.cells ++ d.cells2, cells2 := [] }
+
+/-- back: the first `k` visited cells are `doc.cells`, the others `doc.cell2_ca_poolses` -/
+def Doc.unmerge (k : Nat) (d : Doc) : Doc := { d with cells := d.cells.take k, cells2 := d.cells.drop k ++ d.cells2 }
+
+/-- `fix_external_morphs_biophys_in_cell(doc, overwrite)` started with counter `n` (repaired tree): both loops run
+    over `all_cells`, i.e. the cells of `doc.cells` followed by those of `doc.cell2_ca_poolses`; nothing else
+    distinguishes the two lists (the two deep copies of `overwrite=False` are made one after the other, so the
+    identities are the same as for the merged list) -/
+def fixExternal (doc : Doc) (overwrite : Bool) (files : Files) (n : Nat) : Result :=
+  let r := fixExternalCells doc.merge overwrite files n
+  { r with input := r.input.unmerge doc.cells.length,
+           ret := match r.ret with
+                  | .ok d => .ok (d.unmerge doc.cells.length)
+                  | .error e => .error e }
 
 end NmlVerif.FixExternal
